@@ -96,6 +96,7 @@ class Run:
         self.extra = {}
         self.kf = KnownFindings()
         self.replay_hooks = {}    # obligation name -> callable(ob) -> (replayed: bool, text)
+        self.ob_filter = None
 
     # ------------------------------------------------------------------
     def assume(self, *keys):
@@ -124,6 +125,9 @@ class Run:
     def ob(self, name, func, status, backend, secs=0.0, detail='', components=None, witness=None,
            bounded=None, replay=None):
         """status: discharged | refuted | undecided | bounded-ok | numeric-ok"""
+        flt = getattr(self, 'ob_filter', None)
+        if flt is not None and not flt(name, status):
+            return None
         o = Ob(name, func, status, backend, secs, detail, sig_of(components) if components else '',
                witness, bounded)
         if components:
